@@ -400,6 +400,11 @@ class DBHandler:
                         and isinstance(value[0], bytes | bytearray)
                     ):
                         response_attributes[attr] = [bytes_repr(v) for v in value]
+                    elif isinstance(value, dict):
+                        response_attributes[attr] = {
+                            k: bytes_repr(v) if isinstance(v, bytes | bytearray) else v
+                            for k, v in value.items()
+                        }
 
         query = (
             "INSERT INTO scan_result(run, state, request_pdu, request_time, request_timezone, request_data, "
